@@ -237,17 +237,36 @@ Definition expected (q : request) : option add_onion :=
   | _ => None
   end.
 
+(* a line break in a client name, a client token or the text of a port mapping cannot be carried on
+   one command line (this was the input class of finding C14-F1, repaired by 6a4374c) *)
+Definition hostile_linebreak (q : request) : bool :=
+  existsb (fun p => match p with
+                    | PStr s _ => has_linebreak s
+                    | PPair _ (LText t _) => has_linebreak t
+                    | _ => false
+                    end) (q_ports q)
+  || match q_auth q with
+     | Some cl => existsb (fun c => has_linebreak (fst c)
+                                    || match snd c with Some t => has_linebreak t | None => false end) cl
+     | None => false
+     end.
+
+Fixpoint nodup_names (l : list bytes) : bool :=
+  match l with [] => true | x :: r => negb (existsb (beqb x) r) && nodup_names r end.
+
+(* (with a name given twice the request itself is ambiguous: AuthBasic keeps the later token) *)
+Definition names_distinct (q : request) : bool :=
+  match q_auth q with Some cl => nodup_names (map fst cl) | None => true end.
+
 Definition must_refuse (q : request) : bool :=
   match key_expect (q_version q) (q_key q) with KCRefuse => true | _ => false end
-  || existsb (fun c => match c with PCBad => true | _ => false end) (port_classes (q_ports q) (q_free q)).
+  || existsb (fun c => match c with PCBad => true | _ => false end) (port_classes (q_ports q) (q_free q))
+  || (hostile_linebreak q && names_distinct q).
 
 (* names and tokens as Tor can carry them: no separator, and no colon in a name *)
 Definition client_ok (c : bytes * option bytes) : bool :=
   clean (fst c) && negb (memb COLON (fst c)) && negb (is_nil (fst c))
   && match snd c with Some t => clean t && negb (is_nil t) | None => true end.
-
-Fixpoint nodup_names (l : list bytes) : bool :=
-  match l with [] => true | x :: r => negb (existsb (beqb x) r) && nodup_names r end.
 
 (* the envelope of the round-trip clause: every text is free of Tor's separators and NUL *)
 Definition in_scope (q : request) : bool :=
@@ -276,20 +295,6 @@ Definition ao_eqb (a e : add_onion) : bool :=
   && list_eqb port_eqb (a_ports a) (a_ports e)
   && flags_eqb (a_flags a) (a_flags e)
   && list_eqb client_eqb (a_clients a) (a_clients e).
-
-(* the input class of the open finding C14-F1: a line break in a client name, a client token or
-   the text of a port mapping (these are written into the command line as they are) *)
-Definition hostile_linebreak (q : request) : bool :=
-  existsb (fun p => match p with
-                    | PStr s _ => has_linebreak s
-                    | PPair _ (LText t _) => has_linebreak t
-                    | _ => false
-                    end) (q_ports q)
-  || match q_auth q with
-     | Some cl => existsb (fun c => has_linebreak (fst c)
-                                    || match snd c with Some t => has_linebreak t | None => false end) cl
-     | None => false
-     end.
 
 (* ------------------------------------------------------------------ Tor's answer *)
 Fixpoint field_of (name : bytes) (ls : list bytes) : option bytes :=
@@ -346,7 +351,8 @@ Definition o_count (p1 p2 p3 p4 : list ev) : bool :=
   (nlen (cmds_of p1) <=? 1) && is_nil (cmds_of p2) && is_nil (cmds_of p3) && (nlen (cmds_of p4) <=? 1)
   && forallb no_crlf (cmds_of p1 ++ cmds_of p4).
 
-(* line breaks in the key, or something that is not a port mapping: refused, nothing sent *)
+(* line breaks in the key or in any other argument, or something that is not a port mapping:
+   refused, nothing sent *)
 Definition o_refuse (q : request) (p1 : list ev) : bool :=
   if must_refuse q then is_nil (cmds_of p1) && failed p1 else true.
 
